@@ -13,7 +13,7 @@ def has_unknown(v, seen=None):
         if v in seen:
             return False
         seen.add(v)
-        if v.e[0] in ('unk',):
+        if v.e[0] in ('unk', 'asm'):
             return True
         return any(has_unknown(x, seen) for x in v.e[1:] if isinstance(x, (Sym, Opaque)))
     return False
@@ -107,3 +107,25 @@ def footprint(run):
             iv = [RG.hull(e)]
         fp.setdefault((e.obj.name, e.kind), []).extend(iv)
     return {k: RG.normalize(v) for k, v in fp.items()}
+
+
+_supp = {}
+
+
+def support(v):
+    """set of (object name, byte offset, size) initial-content atoms a value depends on"""
+    if not isinstance(v, Sym):
+        return frozenset()
+    r = _supp.get(v)
+    if r is not None:
+        return r
+    if v.e[0] == 'in':
+        r = frozenset([(v.e[1], v.e[2], v.e[3])])
+    else:
+        acc = set()
+        for x in v.e[1:]:
+            if isinstance(x, Sym):
+                acc |= support(x)
+        r = frozenset(acc)
+    _supp[v] = r
+    return r
